@@ -112,6 +112,11 @@ def run(pid, tier, seed, replay=None):
                     scripts.append(sigcheck.gen_c11(rr, "C01w%d.%d" % (seed, i), m))
                     scripts.append(mtcheck.random_mt_script(rr, "C01e%d.%d" % (seed, i), "C08", m, []))
                     scripts.append(mtcheck.random_mt_script(rr, "C01r%d.%d" % (seed, i), "C09", m, []))
+                for prop, scen in sorted(sigcheck.SMALL.items()):
+                    for name, (opts, body) in sorted(scen.items()):
+                        for j in range(6 if tier == "quick" else 60):
+                            scripts.append(mtcheck.mk("C01x%d.%s.%d" % (seed, name, j), body, "epoll " + opts, det=0,
+                                                      seed=rr.randint(1, 1 << 30), sticky=rr.choice([0, 1, 3])))
         idx = corerun.script_index(scripts)
         tfs = corerun.run_scripts(exe, scripts, sc, tag="run")
         verdicts, nev = vlib.validate_traces(tfs, sc)
